@@ -59,3 +59,82 @@ theorem b64Encode_ok (o : Oracle) (src b : Bytes) :
   · intro h; simp [h]
 
 end Model.JWS
+
+/-! ## members are looked up by their exact names -/
+namespace Model.JWS
+open Gen.Consts
+
+/-- `Wire.lookup` finds a member only under EXACTLY the name asked for: the member it returns is the
+    first one whose name equals `k` as a string — no case folding, no trimming, no Unicode
+    equivalence (what encoding/json already decoded, e.g. `alg`, IS the name `alg`) -/
+theorem lookup_exact (k : String) : ∀ (kvs : List (String × Wire)) (v : Wire), Wire.lookup k kvs = some v →
+    ∃ pre post, kvs = pre ++ (k, v) :: post ∧ ∀ kv ∈ pre, kv.1 ≠ k := by
+  intro kvs
+  induction kvs with
+  | nil => intro v h; simp [Wire.lookup] at h
+  | cons kv rest ih =>
+    intro v h
+    obtain ⟨k', v'⟩ := kv
+    unfold Wire.lookup at h
+    by_cases he : (k == k') = true
+    · simp only [he, if_true] at h
+      injection h with h; subst h
+      have : k = k' := by simpa using he
+      subst this
+      exact ⟨[], rest, rfl, by intro kv hkv; cases hkv⟩
+    · simp only [he, Bool.false_eq_true, if_false] at h
+      obtain ⟨pre, post, hp, hn⟩ := ih v h
+      refine ⟨(k', v') :: pre, post, by rw [hp]; rfl, ?_⟩
+      intro kv hkv
+      cases hkv with
+      | head => intro hc; apply he; simp only [beq_iff_eq]; exact hc.symm
+      | tail _ hm => exact hn kv hm
+
+/-- a member under any OTHER name — however similar — is invisible to a lookup of `k` -/
+theorem lookup_cons_ne (k k' : String) (v : Wire) (kvs : List (String × Wire)) (h : k' ≠ k) :
+    Wire.lookup k ((k', v) :: kvs) = Wire.lookup k kvs := by
+  have : (k == k') = false := by simpa using fun e : k = k' => h e.symm
+  simp [Wire.lookup, this]
+
+/-- the names `decodeHeader` asks for -/
+def registeredNames : List String :=
+  [jwa.AlgorithmKey, jwa.JWKSetURLKey, jwa.JSONWebKey, jwa.X509URLKey, jwa.X509CertificateChainKey,
+   jwa.X509CertificateSHA1Thumbprint, jwa.X509CertificateSHA256Thumbprint, jwa.KeyIDKey, jwa.TypeKey,
+   jwa.ContentTypeKey, jwa.CriticalKey, jwa.Base64URLEncodePayloadKey]
+
+/-- **the typed header fields depend on the exactly-named members only**: two objects that agree
+    under the twelve registered names decode to the same typed fields — whatever other members
+    (`ALG`, `B64`, `Kid`, `cri​t`, …) either of them has -/
+theorem decodeFields_congr (kvs kvs' : KVs)
+    (h : ∀ n ∈ registeredNames, Wire.lookup n kvs' = Wire.lookup n kvs) :
+    decodeFields kvs' = decodeFields kvs := by
+  have h1 := h jwa.AlgorithmKey (by simp [registeredNames])
+  have h2 := h jwa.JWKSetURLKey (by simp [registeredNames])
+  have h3 := h jwa.JSONWebKey (by simp [registeredNames])
+  have h4 := h jwa.X509URLKey (by simp [registeredNames])
+  have h5 := h jwa.X509CertificateChainKey (by simp [registeredNames])
+  have h6 := h jwa.X509CertificateSHA1Thumbprint (by simp [registeredNames])
+  have h7 := h jwa.X509CertificateSHA256Thumbprint (by simp [registeredNames])
+  have h8 := h jwa.KeyIDKey (by simp [registeredNames])
+  have h9 := h jwa.TypeKey (by simp [registeredNames])
+  have h10 := h jwa.ContentTypeKey (by simp [registeredNames])
+  have h11 := h jwa.CriticalKey (by simp [registeredNames])
+  have h12 := h jwa.Base64URLEncodePayloadKey (by simp [registeredNames])
+  unfold decodeFields getURL getBytes getString getObject getStringArray getBoolean
+  simp only [h1, h2, h3, h4, h5, h6, h7, h8, h9, h10, h11, h12]
+
+/-- … in particular an extra member under an unregistered name changes nothing but `Raw` -/
+theorem decodeHeader_extra_member (k' : String) (v : Wire) (kvs : KVs) (hk : k' ∉ registeredNames) :
+    decodeHeader (.obj ((k', v) :: kvs)) =
+      (do let h ← decodeFields kvs; pure { h with raw := .obj ((k', v) :: kvs) } : PO Header) := by
+  unfold decodeHeader
+  simp only [Wire.asObj]
+  rw [decodeFields_congr kvs ((k', v) :: kvs)]
+  intro n hn
+  exact lookup_cons_ne n k' v kvs (fun e => hk (e ▸ hn))
+
+example : "ALG" ∉ registeredNames := by decide
+example : "B64" ∉ registeredNames := by decide
+example : "alg " ∉ registeredNames := by decide
+
+end Model.JWS
